@@ -177,6 +177,9 @@ func callerQuery(t *rapid.T, level [][]string) []QV {
 		for _, v := range kv[1:] {
 			q.Vals = append(q.Vals, kit.BStr(v))
 		}
+		if rapid.IntRange(0, 7).Draw(t, "no-values") == 0 {
+			q.Vals = nil // SetQueryParam(name) without values: what generated code does for an empty array
+		}
 		out = append(out, q)
 	}
 	return out
@@ -188,6 +191,9 @@ var opSchemeLists = [][]string{nil, {"http"}, {"https"}, {"http", "https"}, {"ht
 func genSchemes(t *rapid.T, c *Case) {
 	c.RtSchemes = rapid.SampledFrom(rtSchemeLists).Draw(t, "rtschemes")
 	c.OpSchemes = rapid.SampledFrom(opSchemeLists).Draw(t, "opschemes")
+	if rapid.IntRange(0, 5).Draw(t, "base-path-reassigned") == 0 {
+		c.EarlierBase = "-" + rapid.SampledFrom([]string{"", "/", "/v1", "/v1?rev=1", "old/", "/a/b?x=y"}).Draw(t, "earlier-base")
+	}
 	for i, n := 0, rapid.SampledFrom([]int{0, 0, 0, 1, 2}).Draw(t, "earlier-operations"); i < n; i++ {
 		c.Earlier = append(c.Earlier, rapid.SampledFrom(opSchemeLists).Draw(t, "earlier-schemes"))
 	}
